@@ -1,6 +1,6 @@
 """Demonstration that the binding between specification and implementation bites:
 recorded traces of real scans are corrupted in one field each and must be rejected by ScanTrace.tla
-(run: /venv/bin/python -m harness.selftest; writes evidence/selftest.json)."""
+(run: /venv/bin/python -m harness.selftest; writes selftest/result.json)."""
 from __future__ import annotations
 
 import copy
@@ -68,7 +68,7 @@ def main() -> int:
         ok = (s["rejected"] == 0) if name == "uncorrupted" else (s["rejected"] == s["cases"])
         bad += 0 if ok else 1
         print(f"{'ok ' if ok else 'BAD'} {name}: {s['rejected']}/{s['cases']} rejected {s['clauses']}")
-    with open(os.path.join(VERIF, "evidence", "selftest.json"), "w") as f:
+    with open(os.path.join(VERIF, "selftest", "result.json"), "w") as f:
         json.dump({"what": "single-field corruptions of recorded scan traces vs ScanTrace.tla", "summary": summary}, f, indent=1)
     return 1 if bad else 0
 
